@@ -221,3 +221,48 @@ Definition outcome (d0 : bytes) (ops : list pop) (prog : list cop) (sched : list
   if panicked s then Panic
   else if terminal s then Ok (c_obs s, c_dest s)
   else Fuel.
+
+(* ---------------------------------------------------------------- the call-level machine
+   What ONE thread that executes whole public calls in schedule order does (this is how the
+   correspondence harness drives the real type): a call is executed completely at the schedule
+   position of its first step; if the call has a second step in the machine above (the local
+   write after update(), the mailbox swap after the take), the thread's next slot in the schedule
+   only marks the call as returned.  Proofs/TempBufAtomic.v shows that along every schedule
+   this machine is in the state of the fine-grained machine with the pending second halves
+   completed, so that driving the code call by call loses no interleaving. *)
+Record cst := mkc { k_st : st; k_pflag : bool; k_cflag : bool }.
+
+Definition taken (m : cmid) : bool := negb (is_idle m).
+
+Definition cstep (d0 : bytes) (t : tid) (k : cst) : option cst :=
+  let '(mkc s pf cf) := k in
+  match t with
+  | TP =>
+      if pf then Some (mkc s false cf) else
+      match step_p s with
+      | None => None
+      | Some s1 =>
+          if p_mid s1 then match step_p s1 with Some s2 => Some (mkc s2 true cf) | None => None end
+          else Some (mkc s1 false cf)
+      end
+  | TC =>
+      if cf then Some (mkc s pf false) else
+      match step_c d0 s with
+      | None => None
+      | Some s1 =>
+          if taken (c_mid s1) then match step_c d0 s1 with Some s2 => Some (mkc s2 pf true) | None => None end
+          else Some (mkc s1 pf false)
+      end
+  end.
+Definition cstep_or_stay (d0 : bytes) (t : tid) (k : cst) : cst :=
+  match cstep d0 t k with Some k' => k' | None => k end.
+Fixpoint crun (d0 : bytes) (sched : list tid) (k : cst) : cst :=
+  match sched with [] => k | t :: r => crun d0 r (cstep_or_stay d0 t k) end.
+Definition cinit (ops : list pop) (prog : list cop) : cst := mkc (init ops prog) false false.
+
+(* the fine-grained state with the pending second halves carried out *)
+Definition complete_p (s : st) : st :=
+  if p_mid s then match step_p s with Some s' => s' | None => s end else s.
+Definition complete_c (d0 : bytes) (s : st) : st :=
+  if taken (c_mid s) then match step_c d0 s with Some s' => s' | None => s end else s.
+Definition complete (d0 : bytes) (s : st) : st := complete_c d0 (complete_p s).
